@@ -56,7 +56,7 @@ man = {
     ],
     "checks": checks,
     "not_applicable": na,
-    "notes": "See DESIGN.md. 17 fix: commits in /repo repair genuine defects D1-D12, D14-D17, D20 (known_findings.json, status=fixed); D13 and D19 (C18) and D18 (C01) stay known findings. No hooks in /repo (the tracer works through public configuration objects); the guard name PYHMS_VERIF is reserved.",
+    "notes": "See DESIGN.md. 18 fix: commits in /repo repair genuine defects D1-D12, D14-D17, D20, D21 (known_findings.json, status=fixed); D13 and D19 (C18) and D18 (C01) stay known findings. No hooks in /repo (the tracer works through public configuration objects); the guard name PYHMS_VERIF is reserved.",
 }
 json.dump(man, open(os.path.join(HERE, "MANIFEST.json"), "w"), indent=1)
 print(len(checks), "checks;", len(na), "not yet claimed")
